@@ -1659,6 +1659,12 @@ where
 
         let tag: Tag = Tag::custom(TagKind::h(), [hex::encode(group.nostr_group_id)]);
 
+        #[cfg(feature = "verif-hooks")]
+        if let Some(event) = crate::verif_hooks::build_overridden_wrapper(&encrypted_content, &tag)?
+        {
+            return Ok(event);
+        }
+
         let event = EventBuilder::new(Kind::MlsGroupMessage, encrypted_content)
             .tag(tag)
             .sign_with_keys(&ephemeral_nostr_keys)?;
